@@ -1,6 +1,7 @@
 """C05 - every node is destroyed exactly once, exactly when its last owner releases it."""
 import os
 import vlib
+from checks import world
 
 FINISH = dict(level="model_checking",
               rule="TLC: RefHeap (reference counts, client handles, container slots, user-data destructors) keeps "
@@ -8,7 +9,13 @@ FINISH = dict(level="model_checking",
                    "for every history of ownership-respecting calls over <= 3 nodes (three op-set configs); G: one "
                    "history per transition replayed on the real library; V: random clients over a pool of handles "
                    "incl. deep copy and pointer set; every call validated by TLC (return value, exact destroyed "
-                   "set, fired destructors, probe of a still-held node, allocation balance at the end)")
+                   "set, fired destructors, probe of a still-held node, allocation balance at the end); W: the composed "
+                   "object model World.tla (RefHeap + typed leaf values + JsonValue + Serializer + Grammar): TLC proves for "
+                   "every history over <= 3 nodes that releasing a reference never changes the value of a node still held, "
+                   "copies are equal / fresh / independent, leaf sets are local, every serialization re-parses to the same "
+                   "value; its histories are replayed and random world clients (parse, build, mutate, copy, patch, sort, "
+                   "release) are validated with typed dumps incl. node identities, serializations, equality, pointer walks "
+                   "and visitor order observed after the calls")
 MUTS = ["replace_no_put", "del_no_put", "patch_remove_no_put"]
 OPC = {"get": "G", "put": "P", "oadd": "O", "oaddnew": "Q", "odel": "D", "aadd": "A", "aput": "U", "ains": "I",
        "adel": "X", "borrow": "B", "setud": "S", "copy": "C"}
@@ -90,6 +97,8 @@ def run(ck):
     tp = os.path.join(ck.dir, "v.ndjson")
     deaths = vlib.run_executions(exe, lambda st: ["c05", "drive", st, n, 200], n, tp)
     vlib.conformance(ck, "V:random-clients", "TraceRefHeap", "trace.cfg", tp, deaths, diag_of, min_events=n)
+    # the composed object model: the same client with typed leaves, observing values / text / equality / walks at every step
+    world.run_world(ck, exe, 3000 if thorough else 150, stride=1 if thorough else 4, mc=True)
 
 
 def replay(path):
@@ -99,7 +108,7 @@ def replay(path):
     tp = path + ".ndjson"
     with open(tp, "w") as f:
         f.write("\n".join(x for x in d["trace"] if x.startswith("{")) + "\n")
-    r = vlib.validate_traces("TraceRefHeap", "trace.cfg", [tp])[0]
+    r = vlib.validate_traces("TraceWorld" if d["diagnosis"].get("world") else "TraceRefHeap", "trace.cfg", [tp])[0]
     os.unlink(tp)
     print("trace %s" % ("accepted" if r["accepted"] else "rejected at line(s) %s" % r["lines"]))
     return 0 if r["accepted"] else 1
